@@ -23,7 +23,7 @@ func init() {
 		Doc:  "exhaustive write audit with ownership classes; label immutability; Result.out aliasing; hash completeness",
 		Run:  runShared,
 		Floor: map[string]int{
-			"SHARED-W": 30, "SHARED-E": 3, "SHARED-G": 2, "SHARED-C": 10, "IMMUT": 10, "ALIAS": 1, "HASH": 4,
+			"SHARED-W": 30, "SHARED-E": 3, "SHARED-G": 2, "SHARED-C": 10, "SHARED-P": 1, "IMMUT": 10, "ALIAS": 1, "HASH": 4,
 		},
 	})
 }
@@ -547,6 +547,41 @@ func runShared(c *Ctx) {
 				"package-level variables are only read after initialisation", ternary(bad == "", "read-only outside init", bad))
 		}
 	}
+
+	// ---- SHARED-P: no field of a shared object is handed by address to code outside the module (pools, atomics,
+	// caches …): that is mutable state on a shared object even though no store instruction is visible here
+	nP := 0
+	for _, f := range p.Funcs {
+		core.Instrs(f, func(in ssa.Instruction) {
+			ci, ok := in.(ssa.CallInstruction)
+			if !ok {
+				return
+			}
+			cal := ci.Common().StaticCallee()
+			if cal != nil && p.InTarget(cal) {
+				return
+			}
+			for _, a := range core.CallArgs(ci.Common()) {
+				fa, ok := a.(*ssa.FieldAddr)
+				if !ok {
+					continue
+				}
+				fr, _ := core.AsFieldAddr(fa)
+				if !own.shared[fr.Owner] || p.FreshIn(fa) {
+					continue
+				}
+				nm := core.CalleeName(ci.Common())
+				if strings.HasPrefix(nm, "(*sync.Mutex).") || strings.HasPrefix(nm, "(*sync.RWMutex).") {
+					continue // synchronisation itself is not state
+				}
+				nP++
+				c.R.Add("SHARED-P", fmt.Sprintf("%s|&%s.%s -> %s", core.FuncName(f), fr.Owner, fr.Field, core.ShortCallee(nm)), core.FuncName(f), p.InstrPos(in), false,
+					"no field of an object shared between calls is handed by address to external code (pools, atomics, caches are mutable shared state)",
+					"address of "+fr.Owner+"."+fr.Field+" passed to "+core.ShortCallee(nm))
+			}
+		})
+	}
+	c.R.Add("SHARED-P", "no-shared-field-address-escapes", "(both packages)", "-", nP == 0, "no field of a shared object is handed by address to external code", fmt.Sprintf("%d such call(s)", nP))
 
 	runAlias(c)
 	runHash(c)
